@@ -136,6 +136,9 @@ class ParsersWorld:
                     if it is None:
                         # now and then one of the few really large scripts of the corpus (100 KB)
                         it = workload.pick_item(rw, swarm["p_corpus"], max_len=200000 if ro.random() < 0.02 else 6000)
+                if core.stream(seed, "crlf:%d" % i).random() < 0.07 and "\r" not in it["ddl"]:
+                    # the caller hands over text with CR LF line ends (read in binary mode, received over the wire)
+                    it = dict(it, ddl=it["ddl"].replace("\n", "\r\n"), src=it["src"] + "+crlf")
                 cur = it
                 last_kw = None
                 ops.append({"op": "new", "ddl": it["ddl"], "flags": it["flags"], "src": it["src"]})
@@ -333,7 +336,8 @@ class ParsersWorld:
                     st["violations"].append({"oracle": "args_modified", "op_index": i,
                                              "expected": settings_before, "observed": core.canon(settings)})
                 if outcome is not None:
-                    ref_args = (cur["ddl"], dict(cur["flags"], **(op.get("settings_extra") or {})), op["kw"])
+                    # what parse_from_file hands to the parser is the DECODED file content: universal newlines
+                    ref_args = (cur["ddl"].replace("\r\n", "\n").replace("\r", "\n"), dict(cur["flags"], **(op.get("settings_extra") or {})), op["kw"])
                     expected, prefetched_x = self._ref_pair(ref_args)
                     if expected and expected[0] == "ctor-exc":
                         expected = ["exc"] + list(expected[1:])      # through parse_from_file a constructor error is just an error
@@ -498,6 +502,8 @@ class ParsersWorld:
         stats["env_reads_by_library"] = sum(rx.env_keys_sensed.values())
         stats["env_flip_evaluations"] = rx.env_flips
         stats["env_dependent_outcomes"] = len(rx.env_dependent)
+        for name in getattr(rx, "optional_imports_missing", ()):
+            stats["optional_import_missing:" + name] = 1
 
     def _ref_pair(self, ref_args):
         """The same request to both pristine references at once (same hash seed; other hash seed and locale)."""
